@@ -1,7 +1,8 @@
 (* C01 — witnesses, evaluated with the executable SHA-256 (no collision is involved: every value
    below is computed), that the code as it stands does NOT have session consistency (residual
    family on lagging headers: session_consistency_v1_refuted), the historical witness of the family
-   closed by /repo commit d34d669 (now REJECTED by the verifier: family_a_rejected), and two smaller
+   closed by /repo commit d34d669 (now REJECTED by the verifier: family_a_rejected), the over-long
+   inclusion proofs closed by c59ab5b (family_d_rejected), and two smaller
    binding gaps. Replayed on the Go verifiers by harness/c01 (forgery.go). *)
 From V Require Import Proofs.History Proofs.Fixed Proofs.Session Merkle.Sha256.
 
@@ -119,9 +120,9 @@ Proof.
 Qed.
 
 (* ---------------------------------------------------------------------------------------------
-   Family D: OVER-LONG inclusion proofs. ahtree.VerifyInclusion demands enough terms to reach the
-   right-most path ((i-1)>>len = (j-1)>>len) but accepts any number of FURTHER terms, and
-   VerifyLastInclusion checks no length at all. Against a root that is not the root of a genuine tree
+   Family D (CLOSED by /repo commit c59ab5b): OVER-LONG inclusion proofs. Before that commit
+   ahtree.VerifyInclusion demanded enough terms to reach the right-most path ((i-1)>>len = (j-1)>>len)
+   but accepted any number of FURTHER terms, and VerifyLastInclusion checked no length at all. Against a root that is not the root of a genuine tree
    of the claimed size the position is therefore not unique: with
        R = node( node(leaf a1, leaf a2), Y ),    Y = node( node(z, leaf X), leaf a3 )
    (Y stands where leaf 3 of a size-3 tree would be, but is a subtree holding X = Alh of a forged
@@ -152,21 +153,15 @@ Definition sessionD : list call :=
   [ {| c_proof := dreal; c_src := 2; c_tgt := 4; c_salh := E2; c_talh := E4 |};
     {| c_proof := dfake; c_src := 2; c_tgt := 4; c_salh := XD; c_talh := E4 |} ].
 
-Ltac session_d :=
-  exists (2, E2), sessionD, 2, E2, XD; split; [|split; [|split]];
-  [ cbn [session sessionD]; unfold accepted; cbn [c_proof c_src c_tgt c_salh c_talh];
-    repeat split; try (vm_compute; reflexivity); [left; reflexivity | right; reflexivity]
-  | left; reflexivity
-  | right; vm_compute; tauto
-  | vm_compute; discriminate ].
-
-(* session consistency of VerifyDualProofV2 against an arbitrary server is refuted *)
-Theorem session_consistency_v2_refuted : session_inconsistent (verify_dual_proof_v2_call Hs).
-Proof. session_d. Qed.
-
-(* ... and of VerifyDualProof on ordinary headers too *)
-Theorem session_consistency_v1_overlong_refuted : session_inconsistent (verify_dual_proof Hs).
-Proof. session_d. Qed.
+(* Since /repo commit c59ab5b (ahtree inclusion verifiers require the exact proof length for the
+   claimed position) both verifiers REJECT the forged transaction (and the over-long last-inclusion
+   proof the shape needs): the family is closed; the harness keeps replaying it. *)
+Example family_d_rejected :
+  verify_dual_proof Hs (Some dfake) 2 4 XD E4 = Ok false /\
+  verify_dual_proof_v2_call Hs (Some dfake) 2 4 XD E4 = Ok false /\
+  verify_inclusion Hs (dp_incl dfake) 2 3 (lf XD) RD = false /\
+  verify_last_inclusion Hs (dp_last dreal) 3 (lf E3) RD = false.
+Proof. repeat split; vm_compute; reflexivity. Qed.
 
 (* ---------------------------------------------------------------------------------------------
    VerifyDualProofV2 with sourceTxID = targetTxID returns nil without comparing the two headers or
